@@ -249,9 +249,64 @@ def r103(ctx, fx):
         ctx.finding(rid, "Diagnostics::iter", "Diagnostics::iter does not walk the underlying Vec in order", it.where if it else None)
 
 
+def r104(ctx, fx):
+    rid = ctx.rule("R10.4", "what a walk in hash order does must not depend on who comes first: in a function that iterates a std hash map / set with a `for` (the "
+                   "`next` sites of R10.1, tabled safe or not), no branch is taken on the answer of `insert` / `contains` / `contains_key` of a set or map — "
+                   "a visited-set that lets the first path to a node win makes the *content* of the result depend on the visiting order, which no later sort "
+                   "repairs (the reason `collected into a map keyed by the path` no longer covers it)")
+    fns = {}
+    for f, bi, t, name, ty, dst in sites(fx):
+        if name == "next" and not f.path.startswith(C14_PREFIXES):
+            fns[f.id] = f
+    n = 0
+    for f in sorted(fns.values(), key=lambda f: f.path):
+        n += 1
+        used = []
+        # locals read by a SwitchInt (directly or through a copy / `Not`)
+        switched = set()
+        for b in f.blocks:
+            t = b["term"]
+            if t["k"] == "switch":
+                l = lib.op_local(t.get("discr") or t.get("op") or {})
+                if l is not None:
+                    switched.add(l)
+        du = lib.DefUse(f)
+        changed = True
+        while changed:
+            changed = False
+            for l in list(switched):
+                d = du.single_def(l)
+                if d and d[2] == "assign":
+                    rv = d[3]["rv"]
+                    for op in ([rv.get("op")] if rv["k"] in ("use", "unop", "cast") else [rv.get("l"), rv.get("r")] if rv["k"] == "binop" else []):
+                        src = lib.op_local(op) if op else None
+                        if src is not None and src not in switched:
+                            switched.add(src)
+                            changed = True
+        for bi, t in lib.calls(f):
+            p = lib.norm(lib.callee(t)[0] or "")
+            if not (("Set" in p or "Map" in p) and p.endswith(("::insert", "::contains", "::contains_key", "::replace", "::remove"))):
+                continue
+            if "collections" not in p and "indexmap" not in p:
+                continue
+            dl = t["dst"]["l"] if t.get("dst") else None
+            if dl in switched or (f.locals[dl]["ty"].startswith("core::option::Option") and any(
+                    lib.norm(lib.callee(t2)[0] or "").endswith(("::is_some", "::is_none")) and lib.op_local(t2["args"][0]) is not None and
+                    (du.origin(lib.op_local(t2["args"][0])) or (None, None))[1] is t for _, t2 in lib.calls(f))):
+                used.append((p.rsplit("::", 2)[-2].split("<")[0] + "::" + p.rsplit("::", 1)[-1], t.get("line")))
+        key = "%s|first-wins" % lib.norm(f.path)
+        ctx.inst(rid, key, sample={"fn": f.path, "membership_answers_branched_on": [u[0] for u in used]})
+        if used:
+            ctx.finding(rid, key, "%s walks a hash map / set and branches on `%s` (line %s): whichever of several ways to an element is visited first decides what is "
+                        "recorded for it, and the visiting order changes from run to run" % (f.path, used[0][0], used[0][1]), "%s:%s" % (f.file, used[0][1]))
+    if n < 4:
+        ctx.fail_closed(rid, "fewer than 4 functions that walk a hash map / set with `for` found (%d)" % n)
+
+
 def run(ctx):
     fx = ctx.facts
     r101(ctx, fx)
+    r104(ctx, fx)
     r102(ctx, fx)
     r103(ctx, fx)
     ctx.not_decided("nondeterminism from the environment (file system enumeration, time, thread scheduling); byte equality of outputs on concrete projects")
